@@ -1,0 +1,146 @@
+//go:build verif
+
+// Contracts for the verification machinery in /verif (comment-only; never compiled into a binary).
+// Property C10: best-effort CPU suppression keeps BE off protected CPUs and inside its budget.
+
+package cpusuppress
+
+//@ uses pkg/koordlet/qosmanager/helpers, pkg/util, apis/extension, pkg/util/cpuset
+
+// ---------- budget (milli-CPU) ----------
+
+// capacity of the node in milli-CPU, as the code reads it (Quantity.MilliValue rounds up)
+//@ spec func capMilli(node *corev1.Node) int64 = ceil(1000 * val(node.Status.Capacity, corev1.ResourceCPU))
+
+// budget before the floor: capacity*threshold% - nonBE pods - nonBE host apps - system (each truncated to milli-CPU as the code does)
+//@ spec func rawBudget(capm int64, thr int64, nonBE float64, hostApp float64, sys float64) int64 = capm * thr / 100 - trunc(nonBE * 1000) - trunc(hostApp * 1000) - trunc(sys * 1000)
+
+// "does not grow when any non-BE consumption grows": the budget (with or without floor) is antitone in each figure.
+//@ lemma budgetAntitonePods [C10]: forall capm int64, thr int64, a1 float64, a2 float64, h float64, sy float64 :: a1 <= a2 ==> rawBudget(capm, thr, a2, h, sy) <= rawBudget(capm, thr, a1, h, sy)
+//@ lemma budgetAntitoneHostApps [C10]: forall capm int64, thr int64, a float64, h1 float64, h2 float64, sy float64 :: h1 <= h2 ==> rawBudget(capm, thr, a, h2, sy) <= rawBudget(capm, thr, a, h1, sy)
+//@ lemma budgetAntitoneSystem [C10]: forall capm int64, thr int64, a float64, h float64, s1 float64, s2 float64 :: s1 <= s2 ==> rawBudget(capm, thr, a, h, s2) <= rawBudget(capm, thr, a, h, s1)
+//@ lemma floorMonotone [C10]: forall fl int64, b1 int64, b2 int64 :: b2 <= b1 ==> max(fl, b2) <= max(fl, b1)
+
+// The consumption figures are sums over the metric maps computed by loops of helpers.CalculateFilterPodsUsed (inlined
+// here: it calls its filter parameters dynamically); sums are not expressible in the spec language, so the three
+// figures are named by the locals that receive them (podNonBEUsedCPU, hostAppNonBEUsedCPU, systemUsedCPU, assigned
+// once) and the system figure is bounded from below where it is produced.
+// All inputs are read in the entry state (old): no frame clause is possible because the klog argument slices
+// ([]interface{}) built inside the inlined loops have no modifies designator.
+//@ func (*CPUSuppress).calculateBESuppressCPU [C10]
+//@   requires node != nil
+//@   option inline CalculateFilterPodsUsed NonBEPodFilter NonBEHostAppFilter GetKubeQosClass
+//@   ensures #fresh: result != nil && fresh(result)
+//@   assert before call RecordBESuppressLSUsedCPU: #budget: $arg0 == podNonBEUsedCPU && nodeBESuppress.MilliValue() == (beCPUMinThreshold == nil ? rawBudget(old(capMilli(node)), beCPUUsedThreshold, podNonBEUsedCPU, hostAppNonBEUsedCPU, systemUsedCPU) : max(old(capMilli(node) * deref(beCPUMinThreshold) / 100), rawBudget(old(capMilli(node)), beCPUUsedThreshold, podNonBEUsedCPU, hostAppNonBEUsedCPU, systemUsedCPU)))
+//@   ensures #floor: beCPUMinThreshold != nil ==> result.MilliValue() >= old(capMilli(node) * deref(beCPUMinThreshold) / 100)
+//@   assert after call CalculateFilterPodsUsed: #sysfloor: result2 >= $arg1 && result2 >= 0 && $arg0 == nodeMetric && $arg1 * 1000 == old(ceil(1000 * helpers.nodeReservedCPU(node)))
+
+// ---------- quota mode ----------
+
+// quota for the budget: budget (milli-CPU) times the CFS period, floored by the minimum quota
+//@ spec func budgetQuota(milli int64) int64 = max(milli * system.DefaultCPUCFSPeriod / 1000, beMinQuota)
+// capacity (whole CPUs, rounded up) times the CFS period
+//@ spec func capQuota(node *corev1.Node) float64 = real(ceil(val(node.Status.Capacity, corev1.ResourceCPU))) * real(system.DefaultCPUCFSPeriod)
+// float64(0.1) and float64(0.01) as exact fractions (the engine keeps the binary64 constants, arithmetic is exact)
+//@ spec func stepQuota(node *corev1.Node) float64 = capQuota(node) * 3602879701896397 / 36028797018963968
+//@ spec func bypassDelta(node *corev1.Node) float64 = capQuota(node) * 5764607523034235 / 576460752303423488
+
+// The value written is the argument of strconv.FormatInt (the only use of the computed quota); currentBeQuota is the
+// quota read from the BE cgroup.
+//@ func (*CPUSuppress).adjustByCfsQuota [C10]
+//@   requires r != nil && cpuQuantity != nil && node != nil
+//@   assert before call FormatInt: #quota: $arg0 == ((real(budgetQuota(cpuQuantity.MilliValue())) - real(currentBeQuota) > stepQuota(node) && currentBeQuota != beUnsetQuota) ? currentBeQuota + trunc(stepQuota(node)) : budgetQuota(cpuQuantity.MilliValue()))
+//@   assert before call FormatInt: #floor: currentBeQuota >= beUnsetQuota && val(node.Status.Capacity, corev1.ResourceCPU) > 0 ==> $arg0 >= beMinQuota
+//@   assert before call FormatInt: #notbypassed: !(abs(real(budgetQuota(cpuQuantity.MilliValue())) - real(currentBeQuota)) < bypassDelta(node) && budgetQuota(cpuQuantity.MilliValue()) != beMinQuota)
+//@   assert before call FormatInt: #once: calls("FormatInt") == 1
+//@   ensures #atmostonce: calls("FormatInt") <= 1 && calls("Update") <= calls("FormatInt")
+
+// ---------- cpuset mode ----------
+
+// Frame over-approximation: the picker copies the processors into fresh per-node buckets (append), sorts those buckets and
+// appends to the fresh result; the engine cannot prove pre-existing rows of the same element heaps unchanged across
+// such loops (row extensionality), so it is allowed to change elements of slices of these three types and nothing else
+// (no map, no field, no Quantity).
+//@ spec func scratchProcessors() []koordletutil.ProcessorInfo
+//@ spec func scratchBuckets() [][]koordletutil.ProcessorInfo
+//@ spec func scratchIDs() []int32
+
+//@ func calculateBESuppressCPUSetPolicy [C10]
+//@   ensures #notenough: len(processorInfos) < cpus ==> len(result) == 0
+//@   ensures #atmost: len(result) <= max0(cpus)
+//@   modifies allelems(scratchProcessors()), allelems(scratchBuckets()), allelems(scratchIDs())
+//@   option nopanic idx
+//@   loop 1 invariant 0 <= $i && $i <= len(processorInfos)
+//@   loop 3 invariant 0 <= $i && $i <= len(cpuBucket)
+//@   loop 4 invariant #count: 0 <= i && len(CPUSets) + needCPUs == cpus && (needCPUs >= 0 || len(CPUSets) == 0)
+//@   loop 5 invariant 0 <= j
+//@   loop 6 invariant #count: 0 <= i && len(CPUSets) + needCPUs == cpus && (needCPUs >= 0 || len(CPUSets) == 0)
+//@   loop 7 invariant 0 <= j
+
+// applying the computed set writes cgroup files through the executor (property C12); nothing is claimed about it here
+//@ func (*CPUSuppress).applyBESuppressCPUSet [C10]
+//@   option trusted
+
+// the CPUs exclusive to system QoS, decoded from the node-topology annotation; reads only
+//@ func getSystemQOSExclusiveCPU [C10]
+//@   ensures #set: result0.elems == nil || fresh(result0.elems)
+//@   ensures #err: result1 != nil ==> (forall c int :: !has(result0.elems, c))
+//@   modifies nothing
+//@   option inline GetSystemQOSResource
+
+// a CPU may be handed to BE only if it is not reserved for the node, not exclusive to system QoS and not owned by an LSE pod
+//@ spec func eligible(reserved cpuset.CPUSet, sysExclusive cpuset.CPUSet, pool map[int32]apiext.QoSClass, id int32) bool = !has(reserved.elems, int(id)) && !has(sysExclusive.elems, int(id)) && pool[id] != apiext.QoSLSE
+
+// number of CPUs granted this round: at least 2, at most the budget rounded up, growing by at most ceil(10% of the CPUs)
+//@ spec func wantCPUs(milli int64) int = max(2, ceil(real(milli) / 1000))
+// 3602879701896397/36028797018963968 is float64(beMaxIncreaseCPUPercent), i.e. 0.1 rounded to binary64 (the engine
+// keeps the rounded constant but multiplies exactly, so a spec literal 0.1 would not denote the same number)
+//@ spec func stepCPUs(n int) int = ceil(real(n) * 3602879701896397 / 36028797018963968)
+
+// Instantiation marker. anyway(at(j), p) is equivalent to p whatever at(j) is; it only puts the ground term at(j) of the
+// index under proof into the goal so that the loop hypothesis (pattern {at(j)}) is instantiated at that index. Without
+// it the solver has to guess the instance: an appended slice is described through rows (a[off+j]) while a slice read is
+// a shifted view (shift(a,off)[j]), and the engine's shift axiom only rewrites in one direction.
+//@ spec func at(j int) bool
+//@ spec func anyway(m bool, p bool) bool = (m ==> p) && (!m ==> p)
+
+//@ func (*CPUSuppress).adjustByCPUSet [C10]
+//@   requires r != nil && cpusetQuantity != nil && nodeCPUInfo != nil
+//@   loop 3 invariant #bound: 0 <= $i && $i <= len(nodeCPUInfo.ProcessorInfos) && len(lsrCpus) + len(lsCpus) <= $i
+//@   loop 3 invariant #lsr: forall j int :: {at(j)} 0 <= j && j < len(lsrCpus) ==> anyway(at(j), eligible(cpusetReserved, exclusiveSystemQOSCPUSet, cpuIdToPool, lsrCpus[j].CPUID) && cpuIdToPool[lsrCpus[j].CPUID] == apiext.QoSLSR)
+//@   loop 3 invariant #ls: forall j int :: {at(j)} 0 <= j && j < len(lsCpus) ==> anyway(at(j), eligible(cpusetReserved, exclusiveSystemQOSCPUSet, cpuIdToPool, lsCpus[j].CPUID))
+// Granted count (checked at every picker call; nothing between the computation of cpus and the calls changes it).
+// "At least two" and "grow by at most the step" conflict when len(old)+step < 2 (empty current BE cpuset on a node with
+// <= 10 CPUs): the step limit wins by decision, hence the guard of #atleast2.
+//@   assert before call calculateBESuppressCPUSetPolicy: #exact: cpus == (wantCPUs(cpusetQuantity.MilliValue()) - len(oldCPUSet) > stepCPUs(len(nodeCPUInfo.ProcessorInfos)) ? len(oldCPUSet) + stepCPUs(len(nodeCPUInfo.ProcessorInfos)) : wantCPUs(cpusetQuantity.MilliValue()))
+//@   assert before call calculateBESuppressCPUSetPolicy: #budget: cpus <= wantCPUs(cpusetQuantity.MilliValue())
+//@   assert before call calculateBESuppressCPUSetPolicy: #step: cpus - len(oldCPUSet) <= stepCPUs(len(nodeCPUInfo.ProcessorInfos)) && beMaxIncreaseCpuNum == stepCPUs(len(nodeCPUInfo.ProcessorInfos))
+//@   assert before call calculateBESuppressCPUSetPolicy: #atleast2: len(oldCPUSet) + beMaxIncreaseCpuNum >= 2 ==> cpus >= 2
+// Both pools are checked before the FIRST picker call of an execution (the picker's frame allows it to change elements
+// of ProcessorInfo slices, so after a first call the engine no longer knows the elements of the other pool).
+//@   assert before call calculateBESuppressCPUSetPolicy: #pools: calls("calculateBESuppressCPUSetPolicy") == 1 ==> (forall j int :: {at(j)} 0 <= j && j < len(lsrCpus) ==> anyway(at(j), eligible(cpusetReserved, exclusiveSystemQOSCPUSet, cpuIdToPool, lsrCpus[j].CPUID))) && (forall j int :: {at(j)} 0 <= j && j < len(lsCpus) ==> anyway(at(j), eligible(cpusetReserved, exclusiveSystemQOSCPUSet, cpuIdToPool, lsCpus[j].CPUID)))
+// Shares: the LSR share is the truncated quotient; only linear facts are stated besides its definition.
+//@   assert before call calculateBESuppressCPUSetPolicy#1: #lsrshare: $arg0 == lsrCpuNums && $arg0 > 0 && len($arg1) == len(lsrCpus) && arr($arg1) == arr(lsrCpus)
+//@   assert before call calculateBESuppressCPUSetPolicy#1: #lsrdef: lsrCpuNums == cpus * len(lsrCpus) / (len(lsrCpus) + len(lsCpus))
+//@   assert before call calculateBESuppressCPUSetPolicy#2: #lsshare: $arg0 == cpus - lsrCpuNums && $arg0 > 0 && len($arg1) == len(lsCpus) && arr($arg1) == arr(lsCpus)
+//@   assert before call applyBESuppressCPUSet: #split: 0 <= lsrCpuNums && lsrCpuNums <= cpus
+//@   assert before call applyBESuppressCPUSet: #atmost: len($arg0) <= cpus
+
+
+// ---------- recovery cpuset (calcBECPUSet) ----------
+// The set handed back is beCPUSet.Filter(func(ID) bool { return !exclusiveCPUID[ID] }). Checked here: when the filter is
+// applied, exclusiveCPUID marks every system-QoS-exclusive CPU and every CPU reserved for the node.
+// Not expressible: (a) that Filter keeps only members satisfying its predicate (the spec language cannot apply a function
+// value) and the predicate closure itself (its captured variable is not nameable in a contract); (b) the marks of
+// LSE-owned CPUs (the decoded resource status of a pod is a tuple-valued observer, which specs cannot project).
+//@ func (*CPUSuppress).calcBECPUSet [C10]
+//@   requires r != nil
+//@   loop 2 invariant #sysmarks: 0 <= $i && (forall k int :: 0 <= k && k < $i ==> exclusiveCPUID[$range[k]])
+//@   loop 3 invariant #sys: forall c int :: has(exclusiveSystemQOSCPUSet.elems, c) ==> exclusiveCPUID[c]
+//@   loop 3 invariant #resmarks: 0 <= $i && (forall k int :: 0 <= k && k < $i ==> exclusiveCPUID[$range[k]])
+//@   loop 4 invariant #sys: forall c int :: has(exclusiveSystemQOSCPUSet.elems, c) ==> exclusiveCPUID[c]
+//@   loop 4 invariant #res: forall c int :: has(cpusetReserved.elems, c) ==> exclusiveCPUID[c]
+//@   loop 5 invariant #sys: forall c int :: has(exclusiveSystemQOSCPUSet.elems, c) ==> exclusiveCPUID[c]
+//@   loop 5 invariant #res: forall c int :: has(cpusetReserved.elems, c) ==> exclusiveCPUID[c]
+//@   assert before call Filter: #sys: forall c int :: has(exclusiveSystemQOSCPUSet.elems, c) ==> exclusiveCPUID[c]
+//@   assert before call Filter: #reserved: forall c int :: has(cpusetReserved.elems, c) ==> exclusiveCPUID[c]
